@@ -62,13 +62,18 @@ def main():
     ids = a.ids or sorted(x for x in os.listdir(SEEDED) if os.path.isdir(os.path.join(SEEDED, x)))
     seeds = [int(s) for s in a.seeds.split(",")]
     path = os.path.join(SEEDED, "RESULTS.json")
-    results = json.load(open(path)) if os.path.exists(path) else {}
+    import fcntl
     for sid in ids:
         res = one(sid, a.tier, seeds)
-        results[sid + ":" + a.tier] = res
         print("%-8s %s %s" % (res["status"], sid, (res.get("runs") or [{}])[-1].get("violation", "")))
-    with open(path, "w") as f:
-        json.dump(results, f, indent=1, sort_keys=True)
+        # merge under a lock: several engineers run this script at the same time
+        with open(path + ".lock", "w") as lk:
+            fcntl.flock(lk, fcntl.LOCK_EX)
+            results = json.load(open(path)) if os.path.exists(path) else {}
+            results[sid + ":" + a.tier] = res
+            with open(path + ".tmp", "w") as f:
+                json.dump(results, f, indent=1, sort_keys=True)
+            os.replace(path + ".tmp", path)
 
 
 if __name__ == "__main__":
